@@ -87,7 +87,7 @@ func (l *withPrefix) SafeDetails() []string {
 
 func encodeWithPrefix(_ context.Context, err error) (string, []string, proto.Message) {
 	l := err.(*withPrefix)
-	return l.Error(), l.SafeDetails(), &errorspb.StringPayload{Msg: string(l.prefix)}
+	return l.prefix.StripMarkers(), l.SafeDetails(), &errorspb.StringPayload{Msg: string(l.prefix)}
 }
 
 func decodeWithPrefix(
@@ -138,9 +138,11 @@ func (l *withNewMessage) SafeDetails() []string {
 	return []string{l.message.Redact().StripMarkers()}
 }
 
-func encodeWithNewMessage(_ context.Context, err error) (string, []string, proto.Message) {
+func encodeWithNewMessage(
+	_ context.Context, err error,
+) (string, []string, proto.Message, errbase.MessageType) {
 	l := err.(*withNewMessage)
-	return l.Error(), l.SafeDetails(), &errorspb.StringPayload{Msg: string(l.message)}
+	return l.Error(), l.SafeDetails(), &errorspb.StringPayload{Msg: string(l.message)}, errbase.FullMessage
 }
 
 func decodeWithNewMessage(
@@ -158,6 +160,6 @@ func decodeWithNewMessage(
 }
 
 func init() {
-	errbase.RegisterWrapperEncoder(errbase.GetTypeKey((*withNewMessage)(nil)), encodeWithNewMessage)
+	errbase.RegisterWrapperEncoderWithMessageType(errbase.GetTypeKey((*withNewMessage)(nil)), encodeWithNewMessage)
 	errbase.RegisterWrapperDecoder(errbase.GetTypeKey((*withNewMessage)(nil)), decodeWithNewMessage)
 }
